@@ -179,6 +179,55 @@ def check_flip(w0, W, H, arr, meta, probs, R, counters):
         counters["flips_checked"] += 1
 
 
+def check_group(R, rng, probs, counters):
+    """several objects alive at once: (1) images of identical shape and dtype are all flipped, then all inspected;
+    (2) one and the same WCS belongs to images with different numbers of rows (a frame, the frame trimmed, padded), flipped
+    one after the other"""
+    from toasty.image import Image, ImageDescription
+
+    w, W, H, meta = rand_wcs(R)
+    H = max(H, 4)
+    k = R.choice([2, 3, 4])
+    arrs = [rng.normal(size=(H, W)).astype(np.float32) for _ in range(k)]
+    wcss = [w] + [rand_wcs(R)[0] for _ in range(k - 1)]
+    imgs = [Image.from_array(a.copy(), wcs=x.deepcopy()) for a, x in zip(arrs, wcss)]
+    for im in imgs:
+        if R.random() < 0.7:
+            im.flip_parity()
+        else:
+            im.ensure_negative_parity()
+            if indep_parity(im.wcs) != -1:
+                probs.append("ensure_negative_parity left parity %d" % indep_parity(im.wcs))
+    xs = np.array([0, W - 1, W // 2, 0], float)
+    for i, (im, a, x) in enumerate(zip(imgs, arrs, wcss)):
+        flipped = indep_parity(im.wcs) != indep_parity(x)
+        want = a[::-1] if flipped else a
+        counters["group_images"] += 1
+        if not np.array_equal(np.asarray(im.asarray()), want):
+            probs.append("image %d of %d same-shaped images flipped one after the other: its rows are no longer its own %s rows (%s)" % (i, k, "reversed" if flipped else "original", meta))
+        ys = np.array([0, H - 1, H // 2, H - 1], float)
+        before = xyz(*x.all_pix2world(xs, ys, 0))
+        after = xyz(*im.wcs.all_pix2world(xs, (H - 1 - ys) if flipped else ys, 0))
+        scale = math.sqrt(abs(np.linalg.det(x.pixel_scale_matrix)))
+        if moved(before, after, math.radians(scale) * 1e-6 + 1e-13)[1].any():
+            probs.append("image %d of a group: pixels moved on the sky (%s)" % (i, meta))
+    # (2) the same WCS with different heights
+    w2, W2, H2, meta2 = rand_wcs(R)
+    scale = math.sqrt(abs(np.linalg.det(w2.pixel_scale_matrix)))
+    for Hk in [H2, max(1, H2 - R.randrange(1, 20)), H2 + R.randrange(1, 200), H2]:
+        kind = R.choice(["image", "desc"])
+        obj = Image.from_array(np.zeros((Hk, W2), np.float32), wcs=w2.deepcopy()) if kind == "image" else ImageDescription(shape=(Hk, W2), wcs=w2.deepcopy())
+        obj.flip_parity()
+        xs2 = np.array([0, W2 - 1, W2 // 2], float)
+        ys2 = np.array([0, Hk - 1, Hk // 2], float)
+        before = xyz(*w2.all_pix2world(xs2, ys2, 0))
+        after = xyz(*obj.wcs.all_pix2world(xs2, Hk - 1 - ys2, 0))
+        d, bad = moved(before, after, math.radians(scale) * 1e-6 + 1e-13)
+        counters["same_wcs_other_height"] += 1
+        if bad.any():
+            probs.append("%s of height %d flipped after objects of other heights with the same WCS: pixels moved on the sky by %.3g pixel (%s)" % (kind, Hk, float(np.nanmax(d)) / math.radians(scale), meta2))
+
+
 def run_case(spec, workdir):
     import collections
 
@@ -211,6 +260,8 @@ def run_case(spec, workdir):
         metas.append(meta)
         if len(probs) > 6:
             break
+    for _ in range(3 if spec["n"] else 0):
+        check_group(R, rng, probs, counters)
     counters["wcs_nontrivial"] = nontriv
     res = dict(counters=dict(counters), nontrivial=nontriv > 0, sets=dict(forms=[[m["proj"], m["form"], m["par"], m["crpix"]] for m in metas]), sample=dict(first=metas[:2]))
     if probs:
